@@ -108,6 +108,18 @@ Theorem C17_walk_sees_only_user_handles :
 Proof. exact walk_sees_only_user_handles. Qed.
 Print Assumptions C17_walk_sees_only_user_handles.
 
+(* uv_fs_poll_getpath in the model ([OObs]): a handle answers with a path iff it is active, and the
+   path is that of its current context, i.e. of the last uv_fs_poll_start; a handle that is stopped,
+   closing or never started answers nothing (UV_EINVAL, *size = 0) whatever contexts it still has *)
+Theorem C17_getpath_iff_active :
+  forall s,
+  observe s = EObs (map (fun x => (h_active x, h_closing x,
+                                   if h_active x then match h_chain x with
+                                                      | c :: _ => Some (c_path (getc s c))
+                                                      | [] => None end
+                                   else None)) (hs s)).
+Proof. reflexivity. Qed.
+
 (* History (before 834ed95): the same statement was false: start A; stop; start B while A's
    stat is in flight -- A's poll_cb saw an active handle, kept polling A's path and called A's
    callback.  Kept as the regression witness (corpus/C17/fspoll_known.txt replays it). *)
